@@ -7,10 +7,17 @@ sys.path.insert(0, str(Path(__file__).resolve().parent))
 from manifest_table import CHECKS, NOT_APPLICABLE  # noqa: E402
 
 V = Path(__file__).resolve().parent.parent
-AREAS = ["sat", "lp", "cp", "dlx", "flow", "path", "graph", "pack", "sched", "search", "ds", "assign", "backend", "mst", "net", "cut"]
+PROP_AREA = {"C01": "Sat", "C02": "Sat", "C03": "Lp", "C04": "Lp", "C05": "Cp", "C06": "Cp", "C07": "Dlx",
+             "C08": "Flow", "C09": "Flow", "C10": "Assign", "C11": "Path", "C12": "Backend", "C13": "Mst",
+             "C14": "Graph", "C15": "Net", "C16": "Pack", "C17": "Cut", "C18": "Sched", "C19": "Search", "C20": "Ds"}
+INTERP = {"Ds"}
+_areas = sorted({PROP_AREA[c["property_id"]] for c in CHECKS})
+_targets = []
+for a in _areas:
+    _targets += [f"Solvor.{a}.Theorems", f"Solvor.{a}.Drive"] + ([] if a in INTERP else [f"drv_{a.lower()}"])
 m = {
     "version": 1,
-    "setup_cmd": "/venv/bin/python harness/kernels.py && cd lean && lake build Solvor " + " ".join("drv_" + a for a in AREAS),
+    "setup_cmd": "/venv/bin/python harness/kernels.py && cd lean && lake build " + " ".join(_targets),
     "hooks": {
         "guard": "SOLVOR_VERIF",
         "enable": "none needed: every observable is reached through the public API, public callbacks or by "
